@@ -25,6 +25,7 @@ def run(ctx):
     prog = ir.load_units(units + extra)
     ctx.use_program(prog)
     check_scan(ctx, prog)
+    check_term(ctx, prog)
     check_layout(ctx, prog)
     check_outbuf(ctx, prog)
     check_case(ctx, prog)
@@ -173,6 +174,97 @@ def check_scan(ctx, prog):
     adv = [e for e in fn_exprs(inc) if e.get('k') == 'bin' and e.get('op') == '+=' and strip_lv(e['x']).get('f') == 'u' and strip(e['y']).get('f') == 'n']
     ctx.check(len(adv) == 1, 'R-SCAN', inc['pq'], 'operator++:advances by n', fwhere(inc), 'u += n', 'Enumerator::operator++ does not advance by exactly the length computed by operator*')
     ctx.floor('R-SCAN', n, 6)
+
+
+def check_term(ctx, prog):
+    """C08.term: the converters read their source up to a terminator or for `n` units.  Whether `n` alone bounds the reads is
+    decided per converter by interpretation (scansim) on an unterminated source with n = 0 and n = 1; where it does not
+    (the converters test the unit before the count), every call site must pass n >= 1 or a source that is known to be
+    terminated (a String, a buffer a converter has just filled, an array that had 0 appended)."""
+    import scansim, bounded, bytesets
+    convs = {}
+    for name in ('asl::utf32toUtf8', 'asl::utf16toUtf8', 'asl::utf8toUtf16', 'asl::utf8toUtf32'):
+        f = fn1(prog, name)
+        ptr_in = [p_ for p_ in f['params'] if T(f, p_['t']).get('ptr') and T(f, T(f, p_['t']).get('to')).get('const')]
+        ptr_out = [p_ for p_ in f['params'] if T(f, p_['t']).get('ptr') and not T(f, T(f, p_['t']).get('to')).get('const')]
+        ints = [p_ for p_ in f['params'] if T(f, p_['t']).get('int')]
+        safe = {}
+        for nval, src in ((0, []), (1, [0x41])):
+            r = scansim.Run(prog, f, {'IN': list(src), 'OUT': []}, ptr_params=dict([(ptr_in[0]['id'], ('P', 'IN', 0)), (ptr_out[0]['id'], ('P', 'OUT', 0))]),
+                            int_params=dict((p_['id'], nval) for p_ in ints), growable=('OUT',))
+            try:
+                r.run()
+                safe[nval] = True
+            except scansim.OOB:
+                safe[nval] = False
+            except scansim.Unsupported:
+                safe[nval] = None
+        convs[name] = (f, safe, [p_['id'] for p_ in f['params']].index(ptr_in[0]['id']), [p_['id'] for p_ in f['params']].index(ptr_out[0]['id']), [p_['id'] for p_ in f['params']].index(ints[0]['id']) if ints else None)
+        ctx.evaluations += 2
+    ctx.info['converter_count_safety'] = dict((k.split('::')[-1], {'n=0': v[1][0], 'n=1': v[1][1]}) for k, v in convs.items())
+    n = 0
+    for g in prog.functions:
+        if not g.get('body'):
+            continue
+        calls = [e for e in fn_exprs(g) if e.get('k') == 'call' and e.get('fn') in convs and not e.get('clsp')]
+        if not calls:
+            continue
+        G = q.Guarded(g)
+        order = dict((id(x), i) for i, x in enumerate(G.order))
+        for e in calls:
+            f, safe, si, di, ni = convs[e['fn']]
+            n += 1
+            role = '%s:source of %s is terminated or counted' % (g['n'], e['fn'].split('::')[-1])
+            where = fwhere(g, e.get('l'))
+            if safe.get(0) and safe.get(1):
+                ctx.ok('C08.term', g['pq'], role, where, 'the converter never reads more than n units')
+                continue
+            src = e['a'][si]
+            narg = e['a'][ni] if ni is not None else None
+            # (1) constant count >= 1 (the converter stops after n units when n >= 1)
+            nv = const_val(narg) if narg is not None else None
+            if nv is None and narg is not None:
+                try:
+                    nv = bytesets.Evaluator(prog, g).ev(narg)
+                except bytesets.Undecidable:
+                    nv = None
+            if safe.get(1) and isinstance(nv, int) and nv >= 1:
+                ctx.ok('C08.term', g['pq'], role, where, 'n = %d >= 1' % nv)
+                continue
+            sx = strip(q.expand(g, src))
+            base = None
+            for w in walk_expr(sx):
+                if w.get('k') == 'var':
+                    base = w
+                    break
+            # (4) text of a String
+            if any(w.get('k') == 'call' and (w.get('clsp') == 'asl::String') for w in walk_expr(sx)) or (base is not None and T(g, base.get('t')).get('rec') == 'asl::String'):
+                ctx.ok('C08.term', g['pq'], role, where, 'source is the NUL-terminated text of a String')
+                continue
+            # (5) a caller-supplied C string (pointer parameter): terminated by the function's own contract
+            if base is not None and base.get('vk') == 'param' and T(g, base.get('t')).get('ptr') and sx.get('k') == 'var':
+                ctx.ok('C08.term', g['pq'], role, where, 'source is the caller-supplied terminated string')
+                continue
+            prior = [x for x in fn_exprs(g) if order.get(id(x), 0) < order.get(id(e), 0)]
+            # (3) filled by an earlier converter in this function (converters terminate their output)
+            filled = base is not None and any(x.get('k') == 'call' and not x.get('clsp') and (x.get('fn') in convs or (x.get('fn') or '').split('::')[-1] in ('local8toUtf16', 'utf16toLocal8')) and
+                                              any(w.get('k') == 'var' and w.get('id') == base['id'] for a_ in x.get('a', [])[1:2] for w in walk_expr(q.expand(g, a_))) for x in prior)
+            if filled:
+                ctx.ok('C08.term', g['pq'], role, where, 'source was filled (and terminated) by a converter just before')
+                continue
+            # (2) an array that had 0 appended
+            appended = base is not None and any(x.get('k') == 'call' and x.get('op') == '<<' and strip(x.get('obj') or {}).get('id') == base['id'] and const_val(x['a'][0]) == 0 for x in prior)
+            if appended:
+                ctx.ok('C08.term', g['pq'], role, where, 'a terminator was appended to the source array')
+                continue
+            # local fixed array whose elements are set explicitly, with a constant count handled above
+            is_param_array = base is not None and base.get('vk') == 'param' and T(g, T(g, base.get('t')).get('to') or base.get('t')).get('recp') == 'asl::Array'
+            if is_param_array or (base is not None and T(g, base.get('t')).get('recp') == 'asl::Array'):
+                ctx.violation('C08.term', g['pq'], role, where, '%s passes `%s` with count `%s` to %s: the converter tests the unit before the count, so for an empty array it reads past the storage (and an array without a trailing 0 is read beyond its %s elements whenever the count is 0)'
+                              % (g['q'], pe(src), pe(narg) if narg is not None else '', e['fn'].split('::')[-1], 'n'))
+            else:
+                ctx.undecided('C08.term', g['pq'], role, where, 'source `%s` with count `%s`: neither terminated nor counted >= 1 in a recognised way' % (pe(src), pe(narg) if narg is not None else ''))
+    ctx.floor('C08.term converter call sites', n, 4)
 
 
 # ------------------------------------------------------------------ C08.layout
